@@ -1108,6 +1108,21 @@ impl<'a> Run<'a> {
                             Err(why) => {
                                 drop(node);
                                 vs.push(viol("C01", "breach_unanswered", format!("{at}: dispute already confirmed {depth} blocks ago: {why}")));
+                                // ... and the user holds a receipt for it (this is the accepted branch): a receipt is issued
+                                // only for what the tower stored, responded to, or dropped for an undecryptable blob / a
+                                // refused penalty -- none of which applies to a blob that decrypts and a penalty never sent
+                                let held = {
+                                    let db = self.db(ctx);
+                                    let uuid = self.model.uuid(eu, d);
+                                    db.appointments.iter().any(|a| a.uuid == uuid)
+                                };
+                                if !held {
+                                    vs.push(viol(
+                                        "C08",
+                                        "receipt_for_appointment_not_held",
+                                        format!("{at}: a receipt was returned, the blob decrypts and the penalty was never submitted, but the appointment is neither stored nor responded to"),
+                                    ));
+                                }
                                 rec.unspecified = true;
                                 self.model.recs.insert((eu, d), rec);
                             }
